@@ -22,7 +22,8 @@ class HStory:
 
     def __init__(self, pool=5, cap=4, max_list=2, layouts=gen.LAYOUTS, timing='dur',
                  kinds=spec.STORY_KINDS, init_max=None, rich=False, nmeta=3, packings=('one', 'per'),
-                 pretty_msgs=False, replace_variant=0, no_expand=('StorySend',)):
+                 pretty_msgs=False, replace_variant=0, no_expand=('StorySend',), bodies=None, explicit=None,
+                 edstart=True, send_bodies=None):
         self.pool = gen.STORY_POOL[:pool]
         self.cap = cap
         self.max_list = max_list
@@ -38,16 +39,28 @@ class HStory:
         # space is (ID sequence x metadata interleaving) only; content arrival is C04's business
         self.replace_variant = replace_variant
         self.no_expand = no_expand
+        self.bodies = bodies          # per-ID story bodies (C17)
+        self.explicit = explicit      # per-ID explicit StoryStarted/StoryEnded ('s', 'e', 'se')
+        self.edstart = edstart
+        self.send_bodies = send_bodies
 
     # -- content
     def story(self, sid, variant=0):
         body = (('p', 'plain'), ('i', 'a'), ('i', 'c')) if self.rich else (('p', 'plain'),)
-        return gen.story_xml(sid, variant, body=body, timing=self.timing, rich=self.rich)
+        if self.bodies is not None:
+            body = self.bodies.get(sid, body)
+        timing = self.timing if isinstance(self.timing, str) else self.timing.get(sid, 'dur')
+        started = ended = None
+        if self.explicit is not None:
+            x = self.explicit.get(sid, '')
+            started = T_STARTED.get(sid) if 's' in x else None
+            ended = T_ENDED.get(sid) if 'e' in x else None
+        return gen.story_xml(sid, variant, body=body, timing=timing, rich=self.rich, started=started, ended=ended)
 
     def initial_states(self):
         out = []
         for layout in self.layouts:
-            meta = gen.meta_elems(self.nmeta)
+            meta = gen.meta_elems(self.nmeta, edstart=self.edstart)
             for n in range(0, self.init_max + 1):
                 for ids in itertools.permutations(self.pool, n):
                     out.append(gen.ro_text([self.story(i) for i in ids], layout, meta))
@@ -114,7 +127,11 @@ class HStory:
                     yield {'kind': 'EAStorySwap', 'srcs': (a, b)}
         if 'StorySend' in K:
             for sid in refs_s:
-                yield {'kind': 'StorySend', 'sid': sid}
+                if self.send_bodies and sid in ids:
+                    for b in self.send_bodies:
+                        yield {'kind': 'StorySend', 'sid': sid, 'body': b, 'timing': 'both'}
+                else:
+                    yield {'kind': 'StorySend', 'sid': sid}
 
     # -- renderer
     def render(self, case, view):
@@ -660,3 +677,97 @@ class HCompletion(HMixed):
         if av is None or av.base is None:
             return False
         return HMixed.accept(self, ctx)
+
+
+# ---------------------------------------------------------------- enumerated states (no menu)
+class HEnum:
+    """A finite family of running orders checked state by state (no transitions)."""
+    name = 'H-ENUM'
+
+    def __init__(self, texts_fn, label='enum'):
+        self.texts_fn = texts_fn
+        self.name = 'H-ENUM/' + label
+
+    def initial_states(self):
+        return list(self.texts_fn())
+
+    def menu(self, view, res):
+        return ()
+
+    def render(self, case, view):
+        raise NotImplementedError
+
+    def accept(self, ctx):
+        return False
+
+
+TIMING_KINDS = ('dur', 'text', 'media', 'both', 'dur+text', 'none', 'nometa')
+T_STARTED = {'A': '2020-03-01T10:00:00', 'AB': '2020-03-01T10:07:30', 'C': '2020-03-01T11:00:01', 'D': '2020-03-02T00:00:00'}
+T_ENDED = {'A': '2020-03-01T10:05:00', 'AB': '2020-03-01T10:09:45', 'C': '2020-03-01T11:30:00', 'D': '2020-03-02T00:00:59'}
+
+
+def timing_states(max_n=3, kinds=TIMING_KINDS, explicit=('', 's', 'e', 'se'), edstarts=(True, 'empty', False), ids=('A', 'AB', 'C', 'D')):
+    """All running orders with n <= max_n stories x timing kind per story x explicit
+    StoryStarted/StoryEnded subset per story x roEdStart {present, empty, absent}."""
+    def gen_():
+        opts = [(k, x) for k in kinds for x in explicit if not (k == 'nometa' and x)]
+        for n in range(0, max_n + 1):
+            for combo in itertools.product(opts, repeat=n):
+                stories = []
+                for sid, (k, x) in zip(ids, combo):
+                    stories.append(gen.story_xml(sid, 0, body=(('p', 'plain'),), timing=k,
+                                                 started=T_STARTED[sid] if 's' in x else None,
+                                                 ended=T_ENDED[sid] if 'e' in x else None))
+                for ed in edstarts:
+                    meta = [m for m in gen.meta_elems(2, edstart=ed)]
+                    yield gen.ro_text(stories, 'before', meta)
+    return gen_
+
+
+ITEM_FIELDS = ('slug', 'objID', 'objType', 'mosID', 'note')
+
+
+def accessor_states(max_n=3, kinds=('dur', 'both', 'none', 'nometa'), edstarts=(True, 'empty', False)):
+    """Running orders with n <= max_n stories x timing kind x items 0..2 carrying every subset of
+    the optional item fields (the subsets are spread over the stories/items systematically)."""
+    def gen_():
+        subsets = [tuple(f for i, f in enumerate(ITEM_FIELDS) if mask >> i & 1) for mask in range(32)]
+        ids = ('A', 'AB', 'C')
+        for n in range(0, max_n + 1):
+            for combo in itertools.product(kinds, repeat=n):
+                for nitems in itertools.product((0, 1, 2), repeat=n):
+                    for rot in range(0, 32, 5 if n else 32):
+                        stories = []
+                        k = rot
+                        for sid, tk, ni in zip(ids, combo, nitems):
+                            body = [('p', 'plain')]
+                            for j in range(ni):
+                                body.append(('i', gen.ITEM_POOL[j], 0, subsets[k % 32]))
+                                body.append(('p', 'round'))
+                                k += 7
+                            stories.append(gen.story_xml(sid, 0, body=tuple(body), timing=tk, slug=(k % 3 != 0)))
+                        for ed in edstarts:
+                            yield gen.ro_text(stories, 'before', gen.meta_elems(2, edstart=ed))
+    return gen_
+
+
+BODY_TOKENS = tuple(('p', k) for k in gen.P_KINDS) + (('i', 'a'), ('x', 1))
+
+
+def body_states(max_len=4, tokens=BODY_TOKENS):
+    """One-story running orders whose story children are every sequence of length <= max_len over
+    the paragraph kinds, an item and a foreign element."""
+    def gen_():
+        for n in range(0, max_len + 1):
+            for body in itertools.product(tokens, repeat=n):
+                # item ids must stay unique inside the story
+                k = 0
+                b = []
+                for t in body:
+                    if t[0] == 'i':
+                        b.append(('i', gen.ITEM_POOL[k % len(gen.ITEM_POOL)] + str(k // len(gen.ITEM_POOL) or '')))
+                        k += 1
+                    else:
+                        b.append(t)
+                yield gen.ro_text([gen.story_xml('A', 0, body=tuple(b), timing='dur')], 'before', gen.meta_elems(1))
+    return gen_
